@@ -31,6 +31,7 @@ var importDirStyles = [][]string{
 	importDirs,
 	{".", "httpd", "httpd/b", "http-c", "httpd", "http-c/d"},
 	{".", "a dir", "a dir/b#1", "c@x", "a dir", "c@x/D"},
+	importDirs, // style 3: plain names, every file is a symbolic link to a file kept elsewhere
 }
 
 func (s impSpec) dirOf(i int) string { return importDirStyles[s.style][i] }
@@ -98,6 +99,13 @@ func (s impSpec) materialise(root string) {
 			}
 		}
 		fmt.Fprintf(&b, "tasks:\n  t%d:\n    command:\n      - echo f%d\n", i, i)
+		if s.style == 3 {
+			os.MkdirAll(filepath.Join(root, "store"), 0755)
+			real := filepath.Join(root, "store", fmt.Sprintf("real%d.yaml", i))
+			os.WriteFile(real, []byte(b.String()), 0644)
+			os.Symlink(real, s.file(root, i))
+			continue
+		}
 		os.WriteFile(s.file(root, i), []byte(b.String()), 0644)
 	}
 }
@@ -232,7 +240,10 @@ func impCase(col *Collector, s impSpec, tag string) {
 
 // ---- global + project configuration ----
 
-func globalSplitCase(col *Collector, mask int, nDefs int) {
+// variant: 0 plain; 1 the global definitions live in a file the global configuration imports; 2 the global
+// configuration is a symbolic link; 3 the project definitions live in an imported file that is a symbolic link;
+// 4 the global configuration imports a file that does not exist (loading must fail)
+func globalSplitCase(col *Collector, mask int, nDefs int, variant int) {
 	root := newScratchDir("c17g")
 	defer os.RemoveAll(root)
 	home := filepath.Join(root, "home")
@@ -271,9 +282,32 @@ func globalSplitCase(col *Collector, mask int, nDefs int) {
 		}
 		os.WriteFile(path, []byte(b.String()), 0644)
 	}
-	write(filepath.Join(home, ".taskctl", "config.yaml"), g)
-	write(filepath.Join(root, "tasks.yaml"), p)
-	cs := Case{Tags: []string{"global-split"}, NonTrivial: true, Replay: fmt.Sprintf("global-split defs=%d global-mask=%b", nDefs, mask)}
+	store := filepath.Join(root, "store")
+	os.MkdirAll(store, 0755)
+	gpath, ppath := filepath.Join(home, ".taskctl", "config.yaml"), filepath.Join(root, "tasks.yaml")
+	switch variant {
+	case 1:
+		write(filepath.Join(home, ".taskctl", "extra.yaml"), g)
+		os.WriteFile(gpath, []byte("import: [extra.yaml]\n"), 0644)
+		write(ppath, p)
+	case 2:
+		write(filepath.Join(store, "gc.yaml"), g)
+		os.Symlink(filepath.Join(store, "gc.yaml"), gpath)
+		write(ppath, p)
+	case 3:
+		write(gpath, g)
+		write(filepath.Join(store, "p.yaml"), p)
+		os.Symlink(filepath.Join(store, "p.yaml"), filepath.Join(root, "linked.yaml"))
+		os.WriteFile(ppath, []byte("import: [linked.yaml]\n"), 0644)
+	case 4:
+		write(filepath.Join(home, ".taskctl", "extra.yaml"), g)
+		os.WriteFile(gpath, []byte("import: [extra.yaml, nosuch.yaml]\n"), 0644)
+		write(ppath, p)
+	default:
+		write(gpath, g)
+		write(ppath, p)
+	}
+	cs := Case{Tags: []string{"global-split", fmt.Sprintf("variant=%d", variant)}, NonTrivial: true, Replay: fmt.Sprintf("global-split defs=%d global-mask=%b variant=%d", nDefs, mask, variant)}
 	var got []string
 	func() {
 		defer func() {
@@ -284,6 +318,12 @@ func globalSplitCase(col *Collector, mask int, nDefs int) {
 		cl := verifhooks.NewConfigLoader(verifhooks.NewConfig())
 		cl.VerifSetDirs(root, home)
 		cfg, err := cl.Load(filepath.Join(root, "tasks.yaml"))
+		if variant == 4 {
+			if err == nil {
+				cs.Fail, cs.Sig = "the global configuration imports a file that does not exist, yet loading succeeded", "c17-broken-import-ignored"
+			}
+			return
+		}
 		if err != nil {
 			cs.Fail, cs.Sig = "load failed: "+err.Error(), "c17-global-load"
 			return
@@ -307,6 +347,10 @@ func globalSplitCase(col *Collector, mask int, nDefs int) {
 	}
 	sort.Strings(want)
 	cs.Impl = strings.Join(got, ",")
+	if variant == 4 {
+		col.Add(cs)
+		return
+	}
 	if cs.Fail == "" && strings.Join(got, ",") != strings.Join(want, ",") {
 		cs.Fail, cs.Sig = fmt.Sprintf("definitions available %v, expected the union %v of the global and the project file", got, want), "c17-global-union"
 	}
@@ -373,13 +417,14 @@ func runC17(col *Collector, tier string, seed int64) {
 		case 2:
 			s.dotRoot = true
 		}
-		s.style = []int{0, 0, 1, 2}[k%4]
+		s.style = []int{0, 3, 1, 2}[k%4]
 		specs = append(specs, s)
 		tags = append(tags, fmt.Sprintf("random+names%d", s.style))
 	}
 	parallel(len(specs), 16, func(i int) { impCase(col, specs[i], tags[i]) })
 	for mask := 0; mask < 64; mask++ {
-		globalSplitCase(col, mask, 6)
+		globalSplitCase(col, mask, 6, 0)
+		globalSplitCase(col, mask, 6, 1+mask%4)
 	}
 	col.res.Exhaustive = true
 }
